@@ -215,6 +215,17 @@ def run_case(scheme, cert_reqs, check_hostname, trust, server_hostname, server_c
     opts = {}
     if route == "proxy":
         opts.update(http_proxy_host="proxy.test", http_proxy_port=3128)
+    # connection options that are not TLS options: the peer is still authenticated against the URL's host
+    if extras == "opt:host":
+        opts["host"] = "other.test"
+    elif extras == "opt:host-port":
+        opts["host"] = "other.test:443"
+    elif extras == "opt:origin":
+        opts["origin"] = "https://other.test"
+    elif extras == "opt:header":
+        opts["header"] = ["Host: other.test", "X-Forwarded-Host: other.test"]
+    elif extras == "opt:misc":
+        opts.update(cookie="h=other.test", suppress_origin=True)
     exc = None
     ws = lib.websocket.WebSocket(sslopt=sslopt)
     ws.settimeout(10)
@@ -328,9 +339,11 @@ def run_task(desc):
                     run("wss", cr, chk, trust, sh, sc, "direct", sv)
         # documented options that have nothing to do with authentication must not change what is verified
         if not trust.startswith("context"):
-            for ex in ("ciphers", "certfile", "cert_chain", "ecdh", "handshake-flags"):
+            for ex in ("ciphers", "certfile", "cert_chain", "ecdh", "handshake-flags", "opt:host", "opt:host-port", "opt:origin", "opt:header", "opt:misc"):
                 for chk, sc in itertools.product(CHECK_HOST, SERVER_CERT):
                     run("wss", cr, chk, trust, "absent", sc, "direct", "absent", ex)
+                    if ex == "opt:host" and desc["cert_reqs"] == 0:
+                        run("wss", cr, chk, trust, "absent", sc, "proxy", "absent", ex)
         if desc["cert_reqs"] == 0:
             res["samples"].append({"scheme": "wss", "trust": trust, "cert_reqs": str(cr), "configurations": n})
     res["execs"] = res["complete"] = res["distinct"] = n
